@@ -51,14 +51,20 @@ LEVEL_TEXT = (
     "derivative 1e-6 .. 1e6, intervals of length 1e-6 (problems living on the scale of the interval), amplitude homogeneity "
     "(bit-exact for powers of two when atol is scaled along; inside the measured envelope of the default tolerances "
     "otherwise) and additivity, two/three-node meshes, the first call of a fresh interpreter with non-default options, "
-    "in-place edits of the arrays handed out by the returned callable, earlier callables re-used after later solves."
+    "in-place edits of the arrays handed out by the returned callable, earlier callables re-used after later solves. "
+    "The hypothesis 'admissible transform' of all these theorems is discharged for the library's HandyRTransform as generated "
+    "from rtransform.py (handy_admissible, handy_deriv_ne_zero: every accepted m, R > 0, trim_inf on or off, the whole open "
+    "domain - C03's derivative identities, which need that _convert_inf replaces nothing but +-inf); explored: intervals "
+    "ending 1e-2 .. 1e-4 from either end of the domain of every trimming transform (Handy m = 1..4, HandyMod, Becke, Knowles, "
+    "MultiExp; trim_inf True / False / default), orders 1-3, through the transform against the exact solution and the direct "
+    "solve, where the second and third derivative of the map are finite but exceed 1e16."
 )
 TECHNIQUE = ("Lean 4 proof over regenerated source text (transformation algebra, derivative matrices, explicit form, "
              "the bodies of the public functions and their callbacks, end-to-end under the contracts of the SciPy primitives) + differential correspondence of the private helpers and of "
              "the captured SciPy callbacks + manufactured-solution exploration of solve_ode_ivp/solve_ode_bvp")
-GEN = ["ode"]
+GEN = ["ode", "rtransform"]      # rtransform: Props/C15/Library.lean is about the generated HandyRTransform (round 3)
 LEAN_MODULES = ["GridVerif.Props.C15", "GridVerif.Props.C15.Solve", "GridVerif.Props.C15.Unique", "GridVerif.Props.C15.Public",
-                "GridVerif.Props.C15.Round3"]
+                "GridVerif.Props.C15.Round3", "GridVerif.Props.C15.Library"]
 THEOREMS = [
     "GridVerif.C15.faa_di_bruno_3",
     "GridVerif.C15.derivs_of_comp",
@@ -139,6 +145,9 @@ THEOREMS = [
     "GridVerif.C15.solve_ode_ivp_default_returns_derivatives",
     "GridVerif.C15.solve_ode_bvp_default_returns_solution_only",
     "GridVerif.C15.default_tolerances_within_measured_envelope",
+    # the hypothesis `Admissible` discharged for the generated HandyRTransform (every method passes through _convert_inf)
+    "GridVerif.C15.handy_admissible",
+    "GridVerif.C15.handy_deriv_ne_zero",
 ]
 RULE = (
     "correspondence: sympy.bell (n<=6) / _transform_ode_from_derivs / _transform_ode_from_rtransform / "
@@ -153,7 +162,9 @@ RULE = (
     "the generated test of the warning block against whether _rearrange_to_explicit_ode warns (leading coefficient 0, 1e-300, "
     "within a factor 1 +- 1e-12 / 1.01 / 100 of the threshold on both sides, several points per call) and the value inside the "
     "window; _transform_ode_from_derivs with 2 .. 7 coefficients and 3 .. 5 derivative functions; the signature defaults against "
-    "what reaches SciPy when the caller leaves the keywords out; spans ending exactly on / one ulp outside the transform's domain."
+    "what reaches SciPy when the caller leaves the keywords out; spans ending exactly on / one ulp outside the transform's domain; "
+    "_transform_ode_from_rtransform at points 1e-2 .. 1e-6 from the ends of the domain of the trimming transforms against the "
+    "generated text fed with reference derivatives (40-digit differentiation of the closed form of the map; values up to 1e33)."
 )
 TRUSTED_BASE = [
     "Lean 4.33 kernel; axioms propext, Classical.choice, Quot.sound only (audited per theorem)",
@@ -188,6 +199,16 @@ ASSUMPTIONS = [
     "2e-3), homogeneity <= 2.8e-3 for 1e-12 <= |a| <= 1e6 where it converges (asserted 3e-2 for 1e-12 <= |a| <= 1e3; at 1e6 "
     "SciPy's solve_bvp does not converge for 2 of 60 third-order problems, at 1e9 for none: a rejection, not a wrong answer); "
     "additivity with defaults asserted to 4e-5 (IVP) / 4e-3 (BVP)",
+    "intervals ending d = 1e-2 .. 1e-4 from the singular end of a trimming transform, measured on the unchanged tree (DOP853, rtol "
+    "1e-10, forward integration): row 0 <= 6e-10, row 1 <= 2e-7, row 2 <= 2e-3 (the r-derivatives are of order 1e-10 .. 1e-30 there "
+    "and their errors are multiplied by powers of the derivative of the map): asserted 5e3 rtol (1 + (0.2/d)^k) for row k; next to "
+    "the regular end 5e3 rtol where the derivative of the map does not vanish there (Becke, Handy m=1, MultiExp), d = 1e-2 only and "
+    "100 x that where it does (Handy m>=2, HandyMod, Knowles: at d = 1e-4 SciPy's solve_ivp stops with status -1). Not asserted: "
+    "integration starting AT the singular end (the mapped initial data lose 1e-4 .. 1 to cancellation, with and without trimming) "
+    "and solve_ode_bvp through HandyRTransform m >= 2 / Becke beyond d = 1e-2 (solve_bvp accepts, with status 0, solutions off by "
+    "1e-5 .. 1e+7: its acceptance test is relative to 1 + |dY/dr| and dY/dr is ~1e-10; e.g. HandyRTransform(0, 1, 4), first order, "
+    "20 nodes up to x = 0.99, tol 1e-8: y off by 0.6) - the BVP cases of this class assert y only (2e-5) for HandyMod, Knowles, "
+    "Becke (d = 1e-2), Handy m = 1 (d = 1e-2)",
     "the Bell loop of _transform_ode_from_derivs for orders above 3 is carried and compared although it is outside the property "
     "(solve_ode_ivp / solve_ode_bvp reject order > 3 together with a transform); no theorem depends on what it computes, so a change "
     "there is regenerated and compared, not reported. Observation: for five or more coefficients rows 1-3 of coeff_b do not "
@@ -1040,6 +1061,75 @@ def _corr_round3(ctx: Ctx, ode):
                      f"coeff_b for {order + 1} coefficients a={a}, derivs={ds}: implementation {impl}, model {ans if not ans.startswith('ok') else _ok_vec(ans)}",
                      witness={"order": order, "a": a, "derivs": ds, "impl": impl, "model": ans})
 
+    # -- (d) the coefficients of the transformed equation next to the ends of the domain of the trimming transforms: the
+    #        implementation (with the library's own deriv / deriv2 / deriv3, trimmed or not) against the generated text fed
+    #        with REFERENCE derivatives (40-digit numerical differentiation of the closed form of the map): finite values
+    #        beyond 1e16 must come through as they are -------------------------------------------------------------------
+    import mpmath as mp
+    closed = {
+        "Handy": lambda q: (lambda x: q["R"] * ((1 + x) / (1 - x)) ** q["m"] + q["rmin"]),
+        "HandyMod": lambda q: (lambda x: (1 + x) ** q["m"] * q["s"] / (2 ** q["m"] * (1 - 2 ** q["m"] + q["s"]) - (1 + x) ** q["m"] * (q["s"] - 2 ** q["m"])) + q["rmin"]),
+        "Becke": lambda q: (lambda x: q["R"] * (1 + x) / (1 - x) + q["rmin"]),
+        "Knowles": lambda q: (lambda x: -q["R"] * mp.log(1 - ((1 + x) / 2) ** q["k"]) + q["rmin"]),
+        "MultiExp": lambda q: (lambda x: -q["R"] * mp.log((x + 1) / 2) + q["rmin"]),
+    }
+    table = [("Handy", "HandyRTransform(0.1, 1.5, {m}{t})", lambda m: dict(rmin=mp.mpf("0.1"), R=mp.mpf("1.5"), m=m), [1, 2, 3, 4], +1),
+             ("HandyMod", "HandyModRTransform(0.1, 10.1, {m}{t})", lambda m: dict(rmin=mp.mpf("0.1"), s=mp.mpf(10), m=m), [2, 3], +1),
+             ("Becke", "BeckeRTransform(0.1, 1.5{t})", lambda m: dict(rmin=mp.mpf("0.1"), R=mp.mpf("1.5")), [0], +1),
+             ("Knowles", "KnowlesRTransform(0.1, 1.5, {m}{t})", lambda m: dict(rmin=mp.mpf("0.1"), R=mp.mpf("1.5"), k=m), [2, 3], +1),
+             ("MultiExp", "MultiExpRTransform(0.1, 1.5{t})", lambda m: dict(rmin=mp.mpf("0.1"), R=mp.mpf("1.5")), [0], -1)]
+    cases, lines = [], []
+    old_dps = mp.mp.dps
+    mp.mp.dps = 40
+    try:
+        for it in range(ctx.n(48, 480)):
+            fam, text, par, ms, sign = table[0] if it % 3 == 0 else table[it % len(table)]
+            m = ms[(it // 3) % len(ms)]
+            trim = [True, None, False][(it // 2) % 3]
+            tftext = text.format(m=m, t="" if trim is None else f", trim_inf={trim}")
+            tf = eval(tftext, dict(_ns))
+            # 0.1 and 10.1 are not exactly representable: the reference uses the parameters the object really holds
+            q = par(m)
+            q["rmin"] = mp.mpf(float(tf._rmin))
+            if fam == "HandyMod":
+                q["s"] = mp.mpf(float(tf._rmax)) - mp.mpf(float(tf._rmin))
+            d = [1e-2, 1e-3, 1e-4, 1e-5, 1e-6][(it // 5) % 5]
+            # (the regular end only down to 1e-3: closer, the library's own deriv2 / deriv3 lose digits to cancellation, e.g.
+            #  HandyRTransform m = 1, x = -1 + 1e-6: deriv3 = 4mR (1 + 6mx + 2m^2 + 3x^2) (1+x)^(m-3) / (1-x)^(m+3) is off by 6e-5
+            #  relative - rounding amplified by 1/(1+x)^2, C03's territory, not a truncation)
+            regular = it % 7 == 0
+            if regular:
+                d = [1e-2, 1e-3][(it // 7) % 2]
+            x = float(np.float64(-sign * (1 - d))) if regular else float(np.float64(sign * (1 - d)))
+            order = 1 + (2 * it + it // 3) % 3
+            a = [rng.choice([-1, 1]) * rng.uniform(0.4, 2.5) for _ in range(order + 1)]
+            g = closed[fam](q)
+            ref = [float(mp.diff(g, mp.mpf(x), n)) for n in (1, 2, 3)]
+            if not all(math.isfinite(v) for v in ref):
+                continue
+            with np.errstate(all="ignore"):
+                got = ode._transform_ode_from_rtransform(a, tf, np.array([x]))
+            cases.append((tftext, x, order, a, ref, [float(v) for v in got[:, 0]]))
+            lines.append(f"C15.coeffb {fvec(a)} {f2b(ref[0])} {f2b(ref[1])} {f2b(ref[2])}")
+    finally:
+        mp.mp.dps = old_dps
+    for (tftext, x, order, a, d, impl), ans in zip(cases, driver_batch(lines)):
+        model = _ok_vec(ans)
+        terms = [[abs(a[0])], [abs(a[1] * d[0])] + ([abs(a[2] * d[1])] if order >= 2 else []) + ([abs(a[3] * d[2])] if order >= 3 else [])]
+        if order >= 2:
+            terms.append([abs(a[2] * d[0] ** 2)] + ([3 * abs(a[3] * d[0] * d[1])] if order >= 3 else []))
+        if order >= 3:
+            terms.append([abs(a[3] * d[0] ** 3)])
+        big = max(abs(v) for v in d) > 1e16
+        ctx.count(["coeffb-end", tftext, x, a], nontrivial=True, tag=f"coeffb:end-of-domain:order{order}" + (":beyond-1e16" if big else ""))
+        good = model is not None and len(model) == len(impl) == order + 1 and all(
+            close(mv, iv, rtol=1e-8 if abs(x) > 0 and (x < 0) == (tftext.startswith("MultiExp") is False) else 1e-9, scale=sum(t), atol=1e-300)
+            for mv, iv, t in zip(model, impl, terms))
+        if not good:
+            ctx.fail("corr", f"_transform_ode_from_derivs:end-of-domain:order{order}",
+                     f"coeff_b through {tftext} at x={x!r} (a={a}): implementation {impl}; generated text with the reference derivatives {d} of the map: {model}",
+                     witness={"order": order, "transform": tftext, "x": x, "a": a, "reference_derivs": d, "impl": impl, "model": model})
+
     # -- (c) the defaults of the two signatures: what reaches SciPy / selects the returned rows when the caller leaves the
     #        keywords out, against the generated constants ---------------------------------------------------------------
     ans = driver_batch(["C15.defaults"])[0].split()
@@ -1247,9 +1337,23 @@ def oracle(ctx: Ctx, budget: str, only=None):
         ctx.count(["bvp", prob], nontrivial=nontrivial_problem(prob, cat), tag=f"oracle:bvp:order{order}")
         pts = np.linspace(prob["span"][0], prob["span"][1], pts_n)
         try:
-            with time_limit(SOLVE_TIME_LIMIT):
-                sol, bd = run_bvp(prob)
-                errs, out = errors(prob, sol, pts)
+            try:
+                with time_limit(SOLVE_TIME_LIMIT):
+                    sol, bd = run_bvp(prob)
+                    errs, out = errors(prob, sol, pts)
+            except ValueError as e:
+                # extreme-parameter problems: SciPy's solve_bvp may exhaust its node budget at tol 1e-8 for a particular draw
+                # (status 1; seen on the unchanged tree through HandyModRTransform(0.1, 10, 3) on [-0.9, 0.99], third order,
+                # where 100 000 nodes do not help either while the direct solve is accurate): a limit of the integrator at that
+                # tolerance, not a wrong answer - such a draw is solved once more at tol 1e-6 and accepted 100 times wider
+                if "extreme" not in opt or "status: 1" not in str(e):
+                    raise
+                ctx.info(f"solve_bvp exhausted its node budget at tol {prob['tol']} on {key}; solved again at tol 1e-6")
+                prob["tol"] = 1e-6
+                acc = acc * 100.0
+                with time_limit(SOLVE_TIME_LIMIT):
+                    sol, bd = run_bvp(prob)
+                    errs, out = errors(prob, sol, pts)
         except Exception as e:
             timeouts += isinstance(e, SolveTimeout)
             ctx.fail("oracle", key, f"solve_ode_bvp raised {type(e).__name__}: {e} on an order-{order} problem ({prob['tf'] or 'no transform'})",
@@ -1751,6 +1855,30 @@ def check_homogeneity(case):
         if not d <= case['add_bound']:
             raise Violation('additivity', f'V[f1 + f2, d1 + d2] differs from V[f1, d1] + V[f2, d2] by {d:.3g} (allowed {case["add_bound"]})')
     return 'ok'
+
+def check_end_of_domain(case):
+    """A problem whose interval ends d = 1e-2 .. 1e-4 from an end of the transform's domain (at the singular end r and the
+    derivatives of the transform are finite but huge: 1e16 and more), through the transform: rows against the exact solution
+    (row k to tol[k]: the r-derivatives are tiny there and their errors are multiplied by powers of g'), and against the
+    direct solve."""
+    prob, kind = case['prob'], case['kind']
+    pts = np.linspace(prob['span'][0], prob['span'][1], 9)
+    solve = (lambda tf: run_ivp(prob, tf=tf)) if kind == 'ivp' else (lambda tf: run_bvp(prob, tf=tf)[0])
+    try:
+        out = np.atleast_2d(solve('given')(pts))
+    except Exception as e:
+        raise Violation('end-of-domain', f'raised {type(e).__name__}: {e}')
+    ex, sc = _rows_exact(prob, pts)
+    tol = case['tol']
+    errs = [float(np.max(np.abs(out[k] - ex[k])) / sc[k]) for k in range(len(tol))]
+    if not all(e <= t for e, t in zip(errs, tol)):
+        raise Violation('end-of-domain', f'through {prob["tf"]} on {prob["span"]}: relative errors of the rows [y, y\', ..] = {errs} exceed {tol}')
+    if case.get('direct'):
+        outd = np.atleast_2d(solve(None)(pts))
+        diff = [float(np.max(np.abs(out[k] - outd[k])) / sc[k]) for k in range(len(tol))]
+        if not all(e <= 2 * t for e, t in zip(diff, tol)):
+            raise Violation('end-of-domain', f'through {prob["tf"]} on {prob["span"]}: the rows differ from the direct solve by {diff} (allowed {[2 * t for t in tol]})')
+    return 'ok'
 '''
 exec(R3_HELPERS, _ns)
 _AUDIT_HEADER = HELPERS + AUDIT_HELPERS + R3_HELPERS + "\nimport signal; signal.alarm(300)\n"
@@ -2239,6 +2367,94 @@ ACC_DEFAULT_IVP, ACC_DEFAULT_BVP = 2e-5, 2e-3      # observed 6.1e-7 / 8.2e-5
 SCALE_TOL_IVP, SCALE_TOL_BVP = 5e-9, 1e-7
 
 
+# ---- intervals ending next to an end of the domain of the trimming transforms (seeded change: `_convert_inf` -> np.clip) ----
+# (family, constructor without the trim flag, sign of the singular end, does g' stay away from 0 at the regular end)
+TRIM_TFS = [
+    ("Handy:m=2", "HandyRTransform(0.1, 1.5, 2{t})", +1, False), ("Handy:m=3", "HandyRTransform(0.1, 1.5, 3{t})", +1, False),
+    ("Handy:m=4", "HandyRTransform(0.0, 1.0, 4{t})", +1, False), ("Handy:m=1", "HandyRTransform(0.1, 1.5, 1{t})", +1, True),
+    ("HandyMod:m=3", "HandyModRTransform(0.1, 10.0, 3{t})", +1, False), ("HandyMod:m=2:rmax=1e6", "HandyModRTransform(0.1, 1000000.0, 2{t})", +1, False),
+    ("Becke", "BeckeRTransform(0.1, 1.5{t})", +1, True), ("Becke:R=1e3", "BeckeRTransform(0.1, 1000.0{t})", +1, True),
+    ("Knowles:k=3", "KnowlesRTransform(0.1, 1.5, 3{t})", +1, False), ("Knowles:k=2", "KnowlesRTransform(0.1, 1.5, 2{t})", +1, False),
+    ("MultiExp", "MultiExpRTransform(0.1, 1.5{t})", -1, True),
+]
+# BVP: only where SciPy's solve_bvp is accurate on the unchanged tree (it accepts, with status 0, solutions that are off by
+# 1e-5 .. 1e+7 through HandyRTransform m >= 2 next to the singular end: dY/dr ~ 1e-10 there and its acceptance test is
+# relative to 1 + |dY/dr|); row 0 only
+TRIM_BVP_OK = {"HandyMod:m=3", "HandyMod:m=2:rmax=1e6", "Knowles:k=3", "Knowles:k=2", "Becke", "Handy:m=1"}
+
+
+def _end_of_domain_case(rng, cat, family, text, sign, regular_ok, trim, d, order, kind, end, method, backward=False):
+    t = "" if trim is None else f", trim_inf={trim}"
+    tf = text.format(t=t)
+    inner = rng.uniform(-0.3, 0.45)
+    if end == "singular":
+        span = [inner, 1 - d] if sign > 0 else [-inner, -1 + d]
+    else:
+        span = [-1 + d, inner] if sign > 0 else [1 - d, -inner]
+    if backward:       # (not generated: starting AT the singular end the mapped initial data lose 1e-4 .. 1 to cancellation in
+        span = span[::-1]   # y'' - g'' Y' on the unchanged tree, with and without trimming: outside the accurate envelope)
+    prob = gen_problem(rng, order, "BeckeRTransform", cat)
+    prob.update(tf=tf, tfname="MultiExpRTransform" if sign < 0 else "BeckeRTransform", span=span, y=_gentle_solution(rng, 1.0))
+    if kind == "ivp":
+        rt = METHODS[method]
+        prob.update(method=method, rtol=rt, atol=rt * 1e-2)
+        base = IVP_FACTOR * rt * (1.0 if end == "singular" or regular_ok else 100.0)
+        tol = [base * (1 + (0.2 / d) ** k) for k in range(order)] if end == "singular" else [base] * order
+    else:
+        prob.update(nmesh=20, tol=BVP_TOL, max_nodes=20000, reverse_mesh=sign < 0, bc=[[0, j] for j in range(order)], bc_kind="one-end")
+        tol = [2e-5]
+    return {"prob": prob, "kind": kind, "tol": tol, "direct": True, "family": family, "end": end, "d": d}
+
+
+def _end_of_domain_cases(rng, cat, more, kinds, orders):
+    cases = []
+    k = rng.randrange(1000)
+    ds = [1e-2, 1e-3, 1e-4]
+    if more:
+        for family, text, sign, regular_ok in TRIM_TFS:
+            for trim in (True, False, None):
+                for d in ds:
+                    for order in orders:
+                        k += 1
+                        if "ivp" in kinds and (trim is not None or d == 1e-3):
+                            cases.append(_end_of_domain_case(rng, cat, family, text, sign, regular_ok, trim, d, order, "ivp", "singular",
+                                                             ["DOP853", "RK45"][k % 2]))
+                        if "ivp" in kinds and trim is True and (regular_ok or d == 1e-2):
+                            cases.append(_end_of_domain_case(rng, cat, family, text, sign, regular_ok, trim, d, order, "ivp", "regular", "DOP853"))
+                        if "bvp" in kinds and family in TRIM_BVP_OK and trim is not None and (d == 1e-2 or family.startswith(("HandyMod:m=3", "Knowles"))):
+                            cases.append(_end_of_domain_case(rng, cat, family, text, sign, regular_ok, trim, d, order, "bvp", "singular", None))
+        return cases
+    # quick tier: the cells in which a finite value exceeds 1e16 (HandyRTransform, d <= 1e-3, order >= 2; the default
+    # trim_inf=True written out or left out) always, the rest of the table rotating
+    if "ivp" in kinds:
+        hot = [o for o in orders if o >= 2] or orders
+        for j in range(3):
+            k += 1
+            family, text, sign, regular_ok = TRIM_TFS[(k + j) % 3]
+            cases.append(_end_of_domain_case(rng, cat, family, text, sign, regular_ok, [True, None, True][j], [1e-3, 1e-4, 1e-4][(k + j) % 3],
+                                             hot[::-1][(k + j) % len(hot)], "ivp", "singular", ["DOP853", "RK45"][(k + j) % 2]))
+        for j in range(3):
+            k += 1
+            family, text, sign, regular_ok = TRIM_TFS[3 + (k + 3 * j) % (len(TRIM_TFS) - 3)]
+            cases.append(_end_of_domain_case(rng, cat, family, text, sign, regular_ok, [True, False, True][j], ds[(k + j) % 3], orders[(k + j) % len(orders)],
+                                             "ivp", "singular", ["DOP853", "RK45"][(k + j) % 2]))
+        k += 1
+        family, text, sign, regular_ok = TRIM_TFS[k % len(TRIM_TFS)]
+        cases.append(_end_of_domain_case(rng, cat, family, text, sign, regular_ok, True, ds[k % 3] if regular_ok else 1e-2, orders[k % len(orders)],
+                                         "ivp", "regular", "DOP853"))
+        k += 1
+        family, text, sign, regular_ok = TRIM_TFS[k % 3]
+        cases.append(_end_of_domain_case(rng, cat, family, text, sign, regular_ok, False, ds[1 + k % 2], orders[k % len(orders)], "ivp", "singular", "DOP853"))
+    if "bvp" in kinds:
+        ok = [t for t in TRIM_TFS if t[0] in TRIM_BVP_OK]
+        for j in range(2):
+            k += 1
+            family, text, sign, regular_ok = ok[(k + 2 * j) % len(ok)]
+            d = ds[k % 3] if family.startswith(("HandyMod:m=3", "Knowles")) else 1e-2
+            cases.append(_end_of_domain_case(rng, cat, family, text, sign, regular_ok, [True, False][j], d, orders[(k + j) % len(orders)], "bvp", "singular", None))
+    return cases
+
+
 def _lead_magnitude(prob):
     x = np.array([0.5 * (prob["span"][0] + prob["span"][1])])
     return float(abs(coeff_val(prob["coeffs"][-1], x)[0]))
@@ -2304,6 +2520,16 @@ def _oracle_round3(ctx, cat, only, large):
              "default-tolerances": f"ode.solve_ode_{kind}:default-tolerances", "*": f"ode.solve_ode_{kind}:amplitude-homogeneity:raised"},
             f"solve_ode_{kind}, order {order}, {prob['tf'] or 'no transform'}: right-hand side and data multiplied by {[t[0] for t in amps]} ({mode})",
             f"oracle:{kind}:homogeneity:{mode}:order{order}", nontrivial=True)
+
+    # ---- intervals ending next to an end of the domain of the trimming transforms -------------------------------------------
+    for case in _end_of_domain_cases(rng, cat, more, kinds, orders):
+        p = case["prob"]
+        kind = case["kind"]
+        order = len(p["coeffs"]) - 1
+        run("check_end_of_domain", case,
+            {"*": f"ode.solve_ode_{kind}:end-of-domain:{case['family']}"},
+            f"solve_ode_{kind}, order {order}, interval ending {case['d']:g} from the {case['end']} end of the domain of {p['tf']}",
+            f"oracle:{kind}:end-of-domain:{case['end']}:{case['family'].split(':')[0]}:d={case['d']:g}", nontrivial=True)
 
     # ---- class 12: the smallest meshes (two and three nodes) for solve_ode_bvp ------------------------------------------
     if "bvp" in kinds:
